@@ -1,9 +1,25 @@
 #!/bin/sh
 # usage: ./check.sh <property-id> <quick|thorough>
 # Rebuilds the checker (incremental, offline) and analyses /repo's current working tree.
+# thorough = quick rules + (t) rules (VTA/CHA call graphs, discovery modes, lock order)
+#            + self-validation of this property's rules on scratch copies of /repo
+#            (mutant patches must be detected, benign patches must stay silent).
 set -e
 cd "$(dirname "$0")"
 export GOFLAGS=-mod=mod GOPROXY=off GOSUMDB=off GOTOOLCHAIN=local
 unset GOWORK
 ( cd checker && go build -o ../bin/gbcheck ./cmd/gbcheck ) >&2
-exec ./bin/gbcheck -verif "$(pwd)" -repo "${VERIF_REPO:-/repo}" -property "$1" -tier "${2:-quick}"
+P=$1; T=${2:-${VERIF_TIER:-quick}}
+if [ "$T" = thorough ]; then
+  mkdir -p evidence/selftest
+  S=evidence/selftest/$P.txt
+  set +e
+  tools/selftest.sh "$P" both > "$S" 2>&1; sc=$?
+  set -e
+  grep -E '^(SELFTEST-FAILED|selftest:)' "$S" || true
+  ./bin/gbcheck -verif "$(pwd)" -repo "${VERIF_REPO:-/repo}" -property "$P" -tier thorough -selftest "$S"; gc=$?
+  if [ $gc -ne 0 ]; then exit $gc; fi
+  if [ $sc -ne 0 ]; then echo "UNDECIDED property=$P reason=checker self-validation failed (see $S)"; exit 2; fi
+  exit 0
+fi
+exec ./bin/gbcheck -verif "$(pwd)" -repo "${VERIF_REPO:-/repo}" -property "$P" -tier "$T"
